@@ -257,7 +257,7 @@ Fixpoint conv_v1 (reraises honours : bool) (sc : script) (user_text llm_text : n
 Record v2state := mkS2 { oip : bool; dead : bool }.   (* $output_rails_in_progress; interpreter state lost *)
 
 Section V2.
-  Variables (reraises reset_on_failure : bool).
+  Variables (reraises reset_on_failure contained : bool).
   Variable (sc : script).
   Variables (user_text llm_text : nat -> string) (refusal : string).
   Variable (cfg : vcfg).
@@ -291,7 +291,9 @@ Section V2.
     let utter (st : v2state) calls :=
         match text with
         | Some s => (TReply [s], st, calls)
-        | None => (TReply [], mkS2 (oip st) true, calls)     (* StartUtteranceBotAction(script=None): state lost *)
+        | None => (TReply [], mkS2 (oip st) (negb contained), calls)
+          (* StartUtteranceBotAction(script=None) is invalid: the flow fails (nothing is uttered); if the
+             error is not contained to the flow it escapes run_to_completion and the state is lost *)
         end in
     if oip st then utter st calls
     else
@@ -323,15 +325,15 @@ Section V2.
       end.
 End V2.
 
-Fixpoint conv_v2 (reraises reset : bool) (sc : script) (user_text llm_text : nat -> string) (refusal : string)
+Fixpoint conv_v2 (reraises reset contained : bool) (sc : script) (user_text llm_text : nat -> string) (refusal : string)
          (cfg : vcfg) (t n : nat) (st : v2state) : list obs * v2state :=
   match n with
   | O => ([], st)
   | S n' =>
-    let '(r, st', calls) := turn_v2 reraises reset sc user_text llm_text refusal cfg t st in
+    let '(r, st', calls) := turn_v2 reraises reset contained sc user_text llm_text refusal cfg t st in
     match r with
     | TReply _ =>
-      let '(os, st'') := conv_v2 reraises reset sc user_text llm_text refusal cfg (S t) n' st' in
+      let '(os, st'') := conv_v2 reraises reset contained sc user_text llm_text refusal cfg (S t) n' st' in
       (mkObs r calls 0 :: os, st'')
     | _ => ([mkObs r calls 0], st')
     end
@@ -340,8 +342,8 @@ Fixpoint conv_v2 (reraises reset : bool) (sc : script) (user_text llm_text : nat
 (* ---------- the model instantiated with what the current source says ---------- *)
 Definition turn_v1_now := turn_v1 dispatch_reraises v1_context_honours_hide.
 Definition conv_v1_now := conv_v1 dispatch_reraises v1_context_honours_hide.
-Definition turn_v2_now := turn_v2 dispatch_reraises v2_flag_reset_on_failure.
-Definition conv_v2_now := conv_v2 dispatch_reraises v2_flag_reset_on_failure.
+Definition turn_v2_now := turn_v2 dispatch_reraises v2_flag_reset_on_failure v2_action_event_errors_contained.
+Definition conv_v2_now := conv_v2 dispatch_reraises v2_flag_reset_on_failure v2_action_event_errors_contained.
 
 (* ---------- sanity ---------- *)
 Definition ex_cfg := mkV 2 2 true.
